@@ -341,3 +341,322 @@ func a5ReachableInPkg(top *ssa.Function, depth int) map[*ssa.Function]bool {
 	visit(top, depth)
 	return out
 }
+
+// ---------- C12: termination shapes ----------
+
+// a5ConstBoundTest: cond is `iv < K` / `iv <= K` / `K > iv` / `K >= iv` / `iv != K` with an ascending induction
+// variable iv (the Phi itself or its increment: `for i := 0; i < K; i++` tests the Phi, the rotated form that
+// go/ssa emits for `for range K` tests the incremented value) and a constant K ≥ min.
+func a5ConstBoundTest(cond ssa.Value, min int64) (int64, bool) {
+	bo, ok := cond.(*ssa.BinOp)
+	if !ok {
+		return 0, false
+	}
+	x, y, op := bo.X, bo.Y, bo.Op
+	if _, isC := constInt(x); isC {
+		x, y = y, x
+		switch op {
+		case token.GTR:
+			op = token.LSS
+		case token.GEQ:
+			op = token.LEQ
+		case token.LSS:
+			op = token.GTR
+		case token.LEQ:
+			op = token.GEQ
+		}
+	}
+	k, isC := constInt(y)
+	if !isC || k < min {
+		return 0, false
+	}
+	if op != token.LSS && op != token.LEQ && op != token.NEQ {
+		return 0, false
+	}
+	if loopDir(x) != 1 {
+		return 0, false
+	}
+	return k, true
+}
+
+// a5ErrorAfterBoundedLoop: fn returns a package-level error value on the path that leaves the loop (h, body)
+// through its constant-bound test (or, for a loop whose header holds the test, anywhere behind the loop).
+func a5ErrorAfterBoundedLoop(fn *ssa.Function, h *ssa.BasicBlock, body map[*ssa.BasicBlock]bool) bool {
+	var exits []*ssa.BasicBlock
+	for b := range body {
+		iff, ok := b.Instrs[len(b.Instrs)-1].(*ssa.If)
+		if !ok {
+			continue
+		}
+		if _, isBound := a5ConstBoundTest(iff.Cond, 2); !isBound {
+			continue
+		}
+		for _, s := range b.Succs {
+			if !body[s] {
+				exits = append(exits, s)
+			}
+		}
+	}
+	for _, r := range returnsOf(fn) {
+		res := resultsOf(r)
+		if len(res) == 0 || body[r.Block()] {
+			continue
+		}
+		u, ok := strip(res[len(res)-1]).(*ssa.UnOp)
+		if !ok {
+			continue
+		}
+		if _, isG := u.X.(*ssa.Global); !isG {
+			continue
+		}
+		if h.Dominates(r.Block()) {
+			return true
+		}
+		for _, s := range exits {
+			if s == r.Block() || s.Dominates(r.Block()) {
+				return true
+			}
+		}
+	}
+	return false
+}
+
+// a5RecGraph: the static call graph between the named functions of a reachable set (calls made in their
+// anonymous functions belong to the enclosing named function).
+type a5RecGraph struct {
+	succ map[*ssa.Function]map[*ssa.Function]bool
+}
+
+func a5NewRecGraph(reach map[*ssa.Function]bool) *a5RecGraph {
+	g := &a5RecGraph{succ: map[*ssa.Function]map[*ssa.Function]bool{}}
+	for fn := range reach {
+		from := rootFn(fn)
+		allInstrs(fn, func(in ssa.Instruction) {
+			if ci, ok := in.(ssa.CallInstruction); ok {
+				if cf := staticCalleeFn(ci); cf != nil && cf.Parent() == nil && reach[cf] {
+					if g.succ[from] == nil {
+						g.succ[from] = map[*ssa.Function]bool{}
+					}
+					g.succ[from][cf] = true
+				}
+			}
+		})
+	}
+	return g
+}
+
+func (g *a5RecGraph) reaches(from, to *ssa.Function) bool {
+	seen := map[*ssa.Function]bool{}
+	st := []*ssa.Function{from}
+	for len(st) > 0 {
+		f := st[len(st)-1]
+		st = st[:len(st)-1]
+		if f == to {
+			return true
+		}
+		if seen[f] {
+			continue
+		}
+		seen[f] = true
+		for s := range g.succ[f] {
+			st = append(st, s)
+		}
+	}
+	return false
+}
+
+// recursiveCalls: the calls in fn (a member of the reachable set, possibly anonymous) that close a call cycle:
+// the callee is a named function from which the function enclosing the call is reached again. Direct
+// self-recursion is the cycle of length one.
+func (g *a5RecGraph) recursiveCalls(fn *ssa.Function, reach map[*ssa.Function]bool) []ssa.CallInstruction {
+	return calls(fn, func(ci ssa.CallInstruction) bool {
+		cf := staticCalleeFn(ci)
+		return cf != nil && cf.Parent() == nil && reach[cf] && g.reaches(cf, rootFn(fn))
+	})
+}
+
+// a5DataArgs: the arguments of a call that carry the data recursed on: not the receiver, not a context, not a
+// number or a boolean.
+func a5DataArgs(ci ssa.CallInstruction) []ssa.Value {
+	var out []ssa.Value
+	args := ci.Common().Args
+	start := 0
+	if cf := staticCalleeFn(ci); cf != nil && cf.Signature.Recv() != nil && !ci.Common().IsInvoke() {
+		start = 1
+	}
+	for _, a := range args[start:] {
+		if typeIs(a.Type(), "context", "Context") {
+			continue
+		}
+		if b, ok := a.Type().Underlying().(*types.Basic); ok && b.Info()&(types.IsNumeric|types.IsBoolean) != 0 {
+			continue
+		}
+		out = append(out, a)
+	}
+	return out
+}
+
+// a5PositiveOffset: v is `x + k` with a constant k ≥ 1, directly or as a parameter every call site of which
+// (exactly known) passes such a sum.
+func a5PositiveOffset(ix *a5PkgIndex, v ssa.Value, depth int) bool {
+	v = strip(v)
+	if bo, ok := v.(*ssa.BinOp); ok && bo.Op == token.ADD {
+		if k, isC := constInt(bo.Y); isC && k >= 1 {
+			return true
+		}
+		if k, isC := constInt(bo.X); isC && k >= 1 {
+			return true
+		}
+	}
+	if pa, ok := v.(*ssa.Parameter); ok && depth > 0 {
+		fn := pa.Parent()
+		cs, exact := ix.exactCallers(fn)
+		if !exact {
+			return false
+		}
+		k := a5ParamIndex(fn, pa)
+		for _, cc := range cs {
+			if k < 0 || k >= len(cc.Common().Args) || !a5PositiveOffset(ix, cc.Common().Args[k], depth-1) {
+				return false
+			}
+		}
+		return true
+	}
+	return false
+}
+
+// a5ParamLike: v is the caller's own parameter handed on: the parameter, a type assertion of it (one case of
+// a type switch), or a captured copy of it.
+func a5ParamLike(v ssa.Value) bool {
+	for d := 0; d < 6; d++ {
+		v = strip(v)
+		switch x := v.(type) {
+		case *ssa.Parameter:
+			return true
+		case *ssa.Extract:
+			ta, ok := x.Tuple.(*ssa.TypeAssert)
+			if !ok || x.Index != 0 {
+				return false
+			}
+			v = ta.X
+		case *ssa.TypeAssert:
+			v = x.X
+		default:
+			return false
+		}
+	}
+	return false
+}
+
+// a5ClassifyRecEdge classifies a call that closes a call cycle. kind != "": the data argument strictly
+// decreases (structural component, strict suffix under a containment guard). pass: the data arguments are the
+// caller's parameters handed on unchanged – the cycle then has to decrease at another of its calls.
+func a5ClassifyRecEdge(ix *a5PkgIndex, ci ssa.CallInstruction) (kind string, pass bool) {
+	fn := ci.Parent()
+	if staticCalleeFn(ci) == rootFn(fn) {
+		if k := classifyRecursion(rootFn(fn), ci); k != "" {
+			return k, false
+		}
+	}
+	data := a5DataArgs(ci)
+	contains := false
+	for _, g := range guardsOf(ci.Block()) {
+		v, br := boolOf(g)
+		if call, ok := v.(*ssa.Call); ok && calleeOf(call) != nil && calleeOf(call).FullName() == "strings.Contains" && br {
+			contains = true
+		}
+	}
+	for _, a := range data {
+		if sl, ok := strip(a).(*ssa.Slice); ok && sl.Low != nil && sl.High == nil && contains && a5PositiveOffset(ix, sl.Low, 2) {
+			return "recursion on the strict suffix after the first `}` under a containment guard", false
+		}
+	}
+	allPass := len(data) > 0
+	for _, a := range data {
+		if !a5ParamLike(a) {
+			allPass = false
+		}
+	}
+	if allPass {
+		return "", true
+	}
+	for _, a := range data {
+		for v := range backSlice(a) {
+			switch x := v.(type) {
+			case *ssa.Next:
+				return "structural recursion on an element of the ranged value", false
+			case *ssa.IndexAddr, *ssa.Index:
+				return "structural recursion on an element of the value", false
+			case *ssa.Field:
+				if _, ok := strip(x.X).(*ssa.Extract); ok {
+					return "structural recursion on a field of the type-switched value", false
+				}
+				return "structural recursion on a field of the value", false
+			case *ssa.FieldAddr:
+				return "structural recursion on a field of the value", false
+			}
+		}
+	}
+	return "", false
+}
+
+// a5ResultValue looks through a call of a function of the same package that has one result and one return
+// statement: the value is what that statement returns (at most two levels).
+func a5ResultValue(v ssa.Value) ssa.Value {
+	for d := 0; d < 2; d++ {
+		call, ok := strip(v).(*ssa.Call)
+		if !ok {
+			return v
+		}
+		cf := staticCalleeFn(call)
+		if cf == nil || cf.Blocks == nil || cf.Pkg != call.Parent().Pkg || cf.Signature.Results().Len() != 1 {
+			return v
+		}
+		rets := returnsOf(cf)
+		if len(rets) != 1 {
+			return v
+		}
+		v = resultsOf(rets[0])[0]
+	}
+	return v
+}
+
+// a5MustCallSites: the calls in fn that certainly make a call matching pred: the matching calls themselves and
+// the static calls of functions of the same package every entry→return path of which passes through such a
+// call (a wrapper is the call when every path of it makes the call).
+func a5MustCallSites(fn *ssa.Function, pred func(ssa.CallInstruction) bool, depth int) []ssa.CallInstruction {
+	memo := map[*ssa.Function]bool{}
+	var must func(g *ssa.Function, d int, stack map[*ssa.Function]bool) bool
+	var sites func(g *ssa.Function, d int, stack map[*ssa.Function]bool) []ssa.CallInstruction
+	sites = func(g *ssa.Function, d int, stack map[*ssa.Function]bool) []ssa.CallInstruction {
+		return calls(g, func(ci ssa.CallInstruction) bool {
+			if _, isCall := ci.(*ssa.Call); !isCall {
+				return false // go / defer: not at this point
+			}
+			if pred(ci) {
+				return true
+			}
+			cf := staticCalleeFn(ci)
+			return cf != nil && cf.Blocks != nil && cf.Pkg == fn.Pkg && cf.Parent() == nil && d > 0 && !stack[cf] && must(cf, d-1, stack)
+		})
+	}
+	must = func(g *ssa.Function, d int, stack map[*ssa.Function]bool) bool {
+		if v, ok := memo[g]; ok {
+			return v
+		}
+		stack[g] = true
+		via := map[ssa.Instruction]bool{}
+		for _, s := range sites(g, d, stack) {
+			via[s] = true
+		}
+		delete(stack, g)
+		r := false
+		if len(via) > 0 {
+			bypass, _ := reachesReturnWithout(g, nil, via)
+			r = !bypass
+		}
+		memo[g] = r
+		return r
+	}
+	return sites(fn, depth, map[*ssa.Function]bool{fn: true})
+}
